@@ -4,11 +4,11 @@ cd "$(dirname "$0")/.."
 WT=/tmp/regresswt
 git -C /repo worktree remove --force $WT 2>/dev/null
 git -C /repo worktree add -f $WT HEAD -q
-for d in seeded/*/; do
+for d in ${SEEDS:-seeded/*/}; do
   id=$(basename $d); prop=${id%%-*}
   git -C $WT checkout -q -- . ; git -C $WT clean -fdq
   if ! git -C $WT apply $PWD/$d/patch.diff 2>/dev/null; then echo "$id PATCH-DOES-NOT-APPLY"; continue; fi
-  out=$(VERIF_REPO=$WT ./check $prop --tier quick 2>&1); code=$?
+  out=$(VERIF_NO_ESCALATE=${VERIF_NO_ESCALATE-1} VERIF_REPO=$WT ./check $prop --tier quick 2>&1); code=$?
   echo "$id exit=$code $(echo "$out" | grep "^$prop " | cut -c1-110) $(echo "$out" | grep -m1 '^VIOLATION' | cut -c1-90)"
 done
 git -C /repo worktree remove --force $WT
